@@ -3,10 +3,14 @@ CONSTANTS
   MaxPending = 3
   MaxNum = 2
   MaxItems = 1
+  MaxUid = 1
+  MaxCode = 1
+  NFlagSets = 1
   Kinds = {"NOOP", "LOGIN", "SELECT", "UNSELECT", "STATUS", "LIST", "SEARCH", "ESEARCH", "FETCH", "EXPUNGE", "LOGOUT"}
   Greetings = {"OK"}
-  SimDepth = 0
-INIT GenInit
-NEXT GenNext
-VIEW GenView
+INIT Init
+NEXT Next
+VIEW McView
+INVARIANTS TypeOK IdleAlone
+PROPERTIES ExactlyOnce Isolation DataToRightCommand StateDiagram
 CHECK_DEADLOCK FALSE
